@@ -83,7 +83,7 @@ Proof.
     rewrite Hsl in Hstep. inversion Hstep; subst r s'. clear Hstep.
     unfold s_abs, s_kv, s_nid in *. cbn [ss_wal ss_env]. rewrite Hlog, <- Habs.
     split; [split; assumption|].
-    destruct (spec_store _ ls) as [a'|]; cbn [fst snd sp_log sp_kv]; destruct Hres as [Hr Ha].
+    destruct (spec_store _ ls) as [a'|]; cbn [fst snd sp_log sp_kv]; destruct Hres as (Hr & Ha & _).
     + subst r0. repeat split; auto; try congruence; lia.
     + repeat split; auto; try congruence; lia.
   - (* DeleteRange *)
@@ -93,7 +93,7 @@ Proof.
     rewrite Hsl in Hstep. inversion Hstep; subst r s'. clear Hstep.
     unfold s_abs, s_kv, s_nid in *. cbn [ss_wal ss_env]. rewrite Hlog, <- Habs.
     split; [split; assumption|].
-    destruct (spec_delete _ mn mx) as [a'|]; cbn [fst snd sp_log sp_kv]; destruct Hres as [Hr Ha].
+    destruct (spec_delete _ mn mx) as [a'|]; cbn [fst snd sp_log sp_kv]; destruct Hres as (Hr & Ha & _).
     + subst r0. repeat split; auto; try congruence; lia.
     + repeat split; auto; try congruence; lia.
   - (* GetLog *)
